@@ -21,4 +21,11 @@ theorem addLinear_src (g : Geom K) (s : Lin) (k : K) (v : Nat) :
   simp only []
   split <;> simp_all
 
+/-- the row loop of `_query_*` as translated from the source is the step of the model's running minimum
+    (all three counter types) -/
+theorem queryStep_src (g : Geom K) (cap : Nat) (T : Tab) (k : K) (d : Nat) :
+    qrows g cap T k (d + 1) = Src.queryStepLinear (qrows g cap T k d) (T d (g.col d k)) ∧
+    qrows g cap T k (d + 1) = Src.queryStepLog16 (qrows g cap T k d) (T d (g.col d k)) ∧
+    qrows g cap T k (d + 1) = Src.queryStepLog8 (qrows g cap T k d) (T d (g.col d k)) := ⟨rfl, rfl, rfl⟩
+
 end Sketchnu.SrcLin
